@@ -54,6 +54,24 @@ func c14Scenarios(tier string) []*Scenario {
 				return fmt.Sprintf("OnTimeoutExceeded fired %d times, %d executions returned ErrExceeded", fired, exceeded)
 			}
 		}
+		// a bulkhead has all its permits back once everything has finished
+		for bi, s := range env.Stack {
+			if s.Kind != KBulkhead {
+				continue
+			}
+			got := 0
+			for k := 0; k < int(s.Conc)+1; k++ {
+				if env.Bulks[bi].TryAcquirePermit() {
+					got++
+				}
+			}
+			for k := 0; k < got; k++ {
+				env.Bulks[bi].ReleasePermit()
+			}
+			if got != int(s.Conc) {
+				return fmt.Sprintf("after all executions finished %d permits of bulkhead %d could be acquired, maxConcurrency is %d", got, bi, s.Conc)
+			}
+		}
 		// and a shared bursty limiter never lets more through than its rate: every invocation of the
 		// function went through it, so did every permit handed out by the standalone API
 		for li, s := range env.Stack {
@@ -150,6 +168,10 @@ func c14Scenarios(tier string) []*Scenario {
 	// async runner + Cancel + readers
 	add("async-cancel", []Spec{{Kind: KRetry, MaxRetries: 2, Delay: 5}}, []ExeSpec{{Script: []Out{{Err: E1, Dur: 5, Coop: true}}, Async: true, CancelAsync: true, CancelAt: 10}})
 	add("async-cancel-hedge", []Spec{{Kind: KHedge, MaxHedges: 1, HDelay: 5}}, []ExeSpec{{Script: []Out{{Err: E1, Block: true}}, Async: true, CancelAsync: true, CancelAt: 7}})
+	// a waiter on a full bulkhead whose context is cancelled at the very instant the holder releases
+	for _, w := range []time.Duration{15, 40} {
+		add("bulkhead-cancel-waiter", []Spec{{Kind: KBulkhead, Conc: 1, BWait: w}}, []ExeSpec{{Script: slowOK}, {Script: slowOK, StartAt: 1, Ctx: "cancel", CancelAt: 10}, {Script: slowOK, StartAt: 2, Async: true}})
+	}
 	add("ctx-cancel-pair", []Spec{{Kind: KRetry, MaxRetries: 2, Delay: 5}, {Kind: KTimeout, Limit: 20}}, []ExeSpec{{Script: []Out{{Err: E1, Dur: 5, Coop: true}}, Ctx: "cancel", CancelAt: 12}, {Script: slowOK, Async: true}})
 	return out
 }
@@ -161,7 +183,7 @@ func init() {
 		Race:      true,
 		Technique: "stateless schedule exploration of the instrumented library in a race-detector build whose baton hand-offs are invisible to the detector: every explored schedule is judged by happens-before, not by the failure manifesting",
 		Rule: "harness family: every policy alone and every ordered pair of the eight policies (72 stacks) with a sync and an async execution plus a standalone API caller on the shared instances; hedge over each policy and timeout firing during each policy (the library's own goroutines); " +
-			"async runner + Cancel; every schedule within deviation bound 1 (thorough 2); a schedule fails on a race report, panic, deadlock, an execution that does not complete, an outermost timeout whose OnTimeoutExceeded count differs from the executions that returned ErrExceeded, or a shared bursty limiter letting more invocations and standalone permits through than its rate; distinct = distinct observation logs",
+			"async runner + Cancel; every schedule within deviation bound 1 (thorough 2); a schedule fails on a race report, panic, deadlock, an execution that does not complete, an outermost timeout whose OnTimeoutExceeded count differs from the executions that returned ErrExceeded, a bulkhead that does not have all its permits back at the end, or a shared bursty limiter letting more invocations and standalone permits through than its rate; distinct = distinct observation logs",
 		Assume: []string{"the race detector reports each pair of access sites once per process, so a race is attributed to the first schedule that exposes it", "the harness shares no memory between its threads except through //go:norace helpers",
 			"sequentially consistent interleavings; weak-memory reorderings of racy code are not explored"},
 		Budget: map[string]time.Duration{"quick": 150 * time.Second, "thorough": 25 * time.Minute},
